@@ -723,12 +723,7 @@ def no_unordered_iteration(ctx, modnames: Iterable[str], why: str):
                             ctx.ok(f"{cq.split(':')[1]}.{meth.name}/iteration over the set self.{it.args[0].attr} is ordered", f"{repo.modules[m].relpath}:{it.lineno}", nontrivial=False)
 
 
-def parse_key(k: str) -> ast.AST:
-    """a guard key (canonical text over access paths, where `[*]` stands for `any element`) back as an expression"""
-    try:
-        return ast.parse(k.replace("[*]", "[_STAR_]"), mode="eval").body
-    except SyntaxError:
-        return ast.Name(id=k, ctx=ast.Load())
+from ..provenance import parse_key  # noqa: E402,F401
 
 
 FIVE_TYPES = ("BOOL", "STRING", "INT", "HEX", "FLOAT")
@@ -974,91 +969,7 @@ def int_validator_shape(ctx, core="esp_kconfiglib.core"):
         ctx.ok(construct, f.loc(conv[0]))
 
 
-# --------------------------------------------------------------------------- guards implied by where a truthy value can come from
-def _block_of(parents: Dict[int, ast.AST], node: ast.AST):
-    par = parents.get(id(node))
-    if par is None:
-        return None, None, None
-    for fld in ("body", "orelse", "finalbody"):
-        b = getattr(par, fld, None)
-        if isinstance(b, list) and any(x is node for x in b):
-            return par, b, next(i for i, x in enumerate(b) if x is node)
-    if isinstance(par, ast.Try):
-        for h in par.handlers:
-            if any(x is node for x in h.body):
-                return par, h.body, next(i for i, x in enumerate(h.body) if x is node)
-    return par, None, None
-
-
-def reaching_assignments(fn: ast.AST, node: ast.AST, var: str) -> List[ast.Assign]:
-    """the assignments `var = ...` that can provide the value of `var` at `node`: walking outwards from the node, every
-    assignment nested in an earlier sibling statement, up to and including the first *unconditional* one (a sibling that is
-    itself the assignment). Loop-carried values are not followed (callers use it for per-iteration locals)."""
-    parents: Dict[int, ast.AST] = {}
-    for x in ast.walk(fn):
-        for c in ast.iter_child_nodes(x):
-            parents[id(c)] = x
-
-    def assigns_in(st):
-        return [n for n in ast.walk(st) if isinstance(n, ast.Assign) and any(isinstance(t, ast.Name) and t.id == var for tt in n.targets for t in ast.walk(tt))]
-    out: List[ast.Assign] = []
-    cur = node
-    while cur is not fn and cur is not None:
-        par, b, idx = _block_of(parents, cur)
-        if b is not None:
-            for st in reversed(b[:idx]):
-                if isinstance(st, ast.Assign) and assigns_in(st):
-                    out.append(st)
-                    return out
-                out += assigns_in(st)
-        cur = par
-    return out
-
-
-def effective_guards(fl: Flow, res: Resolver, fn: ast.AST, node: ast.AST, depth: int = 3) -> Set[Tuple[str, bool]]:
-    """guards at `node` plus, for every local that is known to be truthy there, the guards common to all assignments that
-    can have given it a truthy value (`x = None; if c: x = f(); if x: <node>` - c holds at <node>). Facts that mention the
-    local itself are not carried over."""
-    gs: Set[Tuple[str, bool]] = set(fl.guards_at(node) or ())
-    seen: Set[str] = set()
-    for _ in range(depth):
-        added = False
-        for key, pol in sorted(gs):
-            if not pol or key in seen:
-                continue
-            e = parse_key(key)
-            if not isinstance(e, ast.Name):
-                continue
-            seen.add(key)
-            defs = reaching_assignments(fn, node, e.id)
-            if not defs:
-                continue
-            cands: List[Set[Tuple[str, bool]]] = []
-            for d in defs:
-                if not (len(d.targets) == 1 and isinstance(d.targets[0], ast.Name)):
-                    cands.append(set())
-                    continue
-                base = set(fl.guards_at(d) or ())
-                stack = [(d.value, set())]
-                while stack:
-                    v, extra = stack.pop()
-                    if isinstance(v, ast.Constant) and not v.value:
-                        continue
-                    if isinstance(v, ast.IfExp):
-                        stack.append((v.body, extra | {canon_atom(res, a, p) for a, p in decompose(v.test, True)}))
-                        stack.append((v.orelse, extra | {canon_atom(res, a, p) for a, p in decompose(v.test, False)}))
-                        continue
-                    cands.append(base | extra)
-            if not cands:
-                continue
-            common = set.intersection(*cands)
-            new = {(k, p) for k, p in common if e.id not in {x.id for x in ast.walk(parse_key(k)) if isinstance(x, ast.Name)}}
-            if new - gs:
-                gs |= new
-                added = True
-        if not added:
-            break
-    return gs
+from ..provenance import effective_guards, reaching_assignments  # noqa: E402,F401
 
 
 def _bool_leaves(e: ast.AST, out: Set[str]):
